@@ -490,6 +490,11 @@ LocSection(cf, F) == IF cf.ver <= 4 THEN F.loc ELSE F.loclists
 (* Dwarf::ranges(unit, offset) / Dwarf::locations(unit, offset), iterated to the end *)
 RangesAt(off, cf, F, u) == ResRun(RngSection(cf, F), off, u.low_pc, RngCf(cf), AddrTab(F, u))
 LocationsAt(off, cf, F, u) == ResRun(LocSection(cf, F), off, u.low_pc, LocCf(cf), AddrTab(F, u))
+(* Dwarf::raw_ranges(unit, offset) / Dwarf::raw_locations(unit, offset): the raw iterators  *)
+(* at the Dwarf / UnitRef level; raw_locations dispatches on the file type like locations   *)
+(* (a .dwo file reads .debug_loc with the DW_LLE codes: ListFormat(LocCf(cf)) with cf.dwo)  *)
+RawRangesAt(off, cf, F) == RawRun(RngSection(cf, F), off, RngCf(cf))
+RawLocationsAt(off, cf, F) == RawRun(LocSection(cf, F), off, LocCf(cf))
 
 (* Dwarf::die_ranges as coded: attributes in order; DW_AT_ranges wins as    *)
 (* soon as it is met; a constant high_pc is an offset from low_pc, added   *)
